@@ -89,6 +89,7 @@ def run(P: Program, R: Report, tier: str) -> None:
         "masks are read from the original array and written into a fresh zero array at the same time point, so label->id mappings cannot chain and unlisted labels vanish",
         "when id 0 forces a shift, graph and id array shift together; relabelling is skipped only when seg ids equal node ids position by position",
     ]
+    R.decides += ['the relabelled array is never cast back to a narrow dtype; a loaded seg-id property is not dropped before the relabel decision']
     R.not_decided += ["pixel equality of the result (runtime values)"]
     f = P.func_named("relabel_segmentation")
 
